@@ -52,7 +52,7 @@ def gen_cases(rng, tier):
         cases.append({'m': m, 'rot': rng.random() < 0.3, 'rseed': rng.randrange(10**6), 'species': species, 'atoms': atoms, 'identical': identical,
                       'dim': rng.randint(1, 3), 'z': rng.randint(1, 3), 'temp': rng.choice([300.0, 650.0, 1000.5]), 'dt': rng.choice([1e-15, 2e-15]),
                       'k': rng.choice([2, 3, 0.5, 1.5]), 's': rng.choice([2.0, 0.5, 4.0]),
-                      'as_disp': rng.random() < 0.2, 'base_off': [[rng.randint(-400, 400) for _ in range(3)] for _ in range(na)]})
+                      'plots': rng.random() < 0.15, 'as_disp': rng.random() < 0.2, 'base_off': [[rng.randint(-400, 400) for _ in range(3)] for _ in range(na)]})
         if identical:
             cases[-1]['base_off'] = [cases[-1]['base_off'][0]] * na          # identical motion includes the step from the base position
     return cases
@@ -71,6 +71,10 @@ def _metrics(case, k=1.0, s=1.0):
                                coords_are_displacement=True, base_positions=np.mod(c[0] - off, 1))
     else:
         traj = synth.make_traj(m, case['species'], c, time_step=case['dt'] * s, temperature=case['temp'], rot=rot)
+    # (not for the displacement-mode hand-over with base positions off the first frame: pymatgen's own positions <-> displacements round trip
+    #  re-bases such a trajectory on its first frame, so any positions query -- figures slice the trajectory -- legitimately changes its distances)
+    if case.get('plots') and not case.get('as_disp') and k == 1.0 and s == 1.0:
+        synth.call_plots(traj, ['plot_displacement_per_atom', 'plot_displacement_per_element', 'plot_msd_per_element', 'plot_displacement_histogram', 'plot_frequency_vs_occurence', 'plot_vibrational_amplitudes'])
     mt = traj.metrics()
     out = {'density': float(mt.particle_density()), 'molarity': float(mt.mol_per_liter()),
            'dtracer': float(mt.tracer_diffusivity(dimensions=case['dim'])),
